@@ -61,6 +61,19 @@ def run(ctx, model_available=True):
 
     rng = rng_for(ctx.seed, "C12gen")
     hs = product_histories(ctx) + [gen_sleep_history(rng, False) for _ in range(ctx.budget(200, 4000))]
+    # commands held before the gateway's version is known (registry restored from persistence),
+    # then the version arrives (possibly more than once), then the node wakes
+    for v, sig, pl in (("2.0", 22, "0"), ("2.1", 22, "5"), ("2.2", 32, ""), ("2.2.0", 32, "")):
+        for second in (None, "2.1", "2.2", "1.4"):
+            ops = [("put_node", 1, 17, "2.0", True), ("add_child", 1, 0, 3),
+                   ("send", (1, 0, 1, 0, 2, "early"), True, ()),
+                   ("recv", f"0;255;3;0;2;{v}", ()),
+                   ("send", (1, 0, 1, 0, 3, "later"), True, ())]
+            if second:
+                ops.append(("recv", f"0;255;3;0;2;{second}", ()))
+                ops.append(("recv", f"0;255;3;0;2;{v}", ()))
+            ops.append(("recv", f"1;255;3;0;{sig};{pl}", ()))
+            hs.append(ops)
     res = run_property(ctx, "C12", histories=hs, n_quick=0, n_thorough=0, oracle=oracle_c12,
                        model_available=model_available,
                        rule="complete product: five commands x representative types (existing / not existing in the active protocol) x buffering flag x destination unknown/awake/sleeping x six version states, plus sleep-buffer histories")
